@@ -105,3 +105,7 @@ package generator
 //@   ensures format != Go && format != Dart && format != TypeScript && format != Psql ==> result == nil
 //@   -- at most one probe per tool and request
 //@   ensures runs("which goimports") <= old(runs("which goimports")) + 1 && runs("dart format --help") <= old(runs("dart format --help")) + 1 && runs("npx prettier -v") <= old(runs("npx prettier -v")) + 1 && runs("pg_format -v") <= old(runs("pg_format -v")) + 1
+
+// the qualifier is a function of the package
+//@ func NameRelativeTo
+//@   pure
